@@ -709,6 +709,10 @@ func enumStrings() []string {
 
 const chunk = 2000
 
+// maxFailures: an enumeration worker stops after this many violations (each
+// one costs extra shell processes and one is enough for the verdict).
+const maxFailures = 20
+
 func TestC13Enum(t *testing.T) {
 	if os.Getenv("VERIF_REPLAY") != "" {
 		vh.Run(t, prop)
@@ -716,6 +720,7 @@ func TestC13Enum(t *testing.T) {
 	}
 	shard, n := vh.Shard()
 	all := enumStrings()
+	failures := 0
 	k := 0
 	for _, lang := range langNames {
 		var mine []string
@@ -742,7 +747,11 @@ func TestC13Enum(t *testing.T) {
 				}
 			}
 			for _, s := range part {
-				vh.Each(t, prop, Case{Lang: lang, Strs: []string{hex.EncodeToString([]byte(s))}})
+				if !vh.Each(t, prop, Case{Lang: lang, Strs: []string{hex.EncodeToString([]byte(s))}}) {
+					if failures++; failures >= maxFailures {
+						t.Fatalf("stopping after %d violations", failures)
+					}
+				}
 			}
 			cacheMu.Lock()
 			cache = map[string]shellOut{}
